@@ -1,3 +1,4 @@
+OVERLAY = ['codec']   # overlay wrapper groups this property's harnesses call (overlay/<pkg>/zz_vp_<tag>.go)
 HARNESSES = {
     'Section': dict(split={'count': 4}, quick=dict(params={'L': 8}), thorough=dict(params={'L': 10})),
     'PaletteChunk': dict(split={'format': 4, 'lenwidth': 3}, quick=dict(params={'N': 3}), thorough=dict(params={'N': 6})),
